@@ -37,4 +37,31 @@ def wfInv (p : Bytes) : Prop :=
 def wfHeaders (p : Bytes) : Prop :=
   ∃ (k : Nat) (hs : List Bytes), k < 2 ^ 64 ∧ items 80 k hs ∧ p = varIntEnc k ++ (hs.map (· ++ [0])).flatten
 
+/-- a transaction input / output as serialized: `pre` fixed bytes, a var-length script of at most
+    `M` bytes, `post` fixed bytes (input: outpoint 36, sequence 4; output: value 8, nothing). -/
+def scriptItem (pre post M : Nat) (b : Bytes) : Prop :=
+  ∃ a sc z, a.length = pre ∧ z.length = post ∧ sc.length ≤ M ∧ b = a ++ varIntEnc sc.length ++ sc ++ z
+
+def scriptItems (pre post M : Nat) : Nat → List Bytes → Prop
+  | 0, l => l = []
+  | k+1, l => ∃ x r, l = x :: r ∧ scriptItem pre post M x ∧ scriptItems pre post M k r
+
+/-- a well-formed serialized transaction whose counts and script lengths ask the decoder for at
+    most `M` bytes per allocation (72 bytes per declared input, 32 per declared output). -/
+def wfTx (M : Nat) (t : Bytes) : Prop :=
+  ∃ (ver lock : Bytes) (ins outs : List Bytes) (nIn nOut : Nat),
+    ver.length = 4 ∧ lock.length = 4 ∧ nIn * 72 ≤ M ∧ nOut * 32 ≤ M ∧
+    scriptItems 36 4 M nIn ins ∧ scriptItems 8 0 M nOut outs ∧
+    t = ver ++ varIntEnc nIn ++ ins.flatten ++ varIntEnc nOut ++ outs.flatten ++ lock
+
+def wfTxs (M : Nat) : Nat → List Bytes → Prop
+  | 0, l => l = []
+  | k+1, l => ∃ x r, l = x :: r ∧ wfTx M x ∧ wfTxs M k r
+
+/-- block payload: 80-byte header, varint count, that many transactions, and possibly `extra`
+    bytes still inside the declared length (a count smaller than what is present). -/
+def wfBlock (M : Nat) (p : Bytes) : Prop :=
+  ∃ (h : Bytes) (k : Nat) (txs : List Bytes) (extra : Bytes),
+    h.length = 80 ∧ k < 2 ^ 64 ∧ wfTxs M k txs ∧ p = h ++ varIntEnc k ++ txs.flatten ++ extra
+
 end BRV.Spec
